@@ -178,6 +178,70 @@ fn run_sc(sc: &Sc) -> Res {
 
 /// "any receive timeout": the largest representable timeouts behave like receive(): the blocked
 /// receiver is woken by a plain, a priority and a timed send from another thread
+/// the only queued timer is cancelled; the receiver then blocks on the (now empty) queue and another
+/// thread schedules a timer that expires LATER than the cancelled one would have: it wakes the receiver
+fn later_timer_after_cancel(out: &mut Out) {
+    for variant in 0..4u64 {
+        let mut q = EventReceiver::<u64>::default();
+        let s = q.sender().clone();
+        let first = Duration::from_millis(if variant % 2 == 0 { 20 } else { 40 });
+        let id = s.send_with_timer(1, first);
+        let cancel_while_blocked = variant >= 2;
+        if !cancel_while_blocked {
+            let a = q.try_receive();   // the receiver learns of the timer
+            s.cancel_timer(id);
+            let b = q.try_receive();   // ... and of its cancellation
+            if a.is_some() || b.is_some() { out.violation(&format!("[C08] try_receive() returned {:?} / {:?} for a timer of {:?} that was cancelled at once", a, b, first)); }
+        }
+        let (tx, rx) = mpsc::channel();
+        let forever = variant % 2 == 1;
+        let h = std::thread::spawn(move || { let t = Instant::now(); let r = if forever { Some(q.receive()) } else { q.receive_timeout(Duration::from_secs(30)) }; tx.send((r, t.elapsed())).ok(); });
+        std::thread::sleep(Duration::from_millis(8));
+        if cancel_while_blocked { s.cancel_timer(id); std::thread::sleep(Duration::from_millis(4)); }
+        let t_sched = Instant::now();
+        s.send_with_timer(2, Duration::from_millis(70));
+        let got = rx.recv_timeout(Duration::from_millis(2500));
+        let how = format!("a {:?} timer was scheduled and cancelled {}; the receiver blocked in {}; then another thread scheduled a 70 ms timer", first, if cancel_while_blocked { "while the receiver was already blocked" } else { "(the receiver saw both through try_receive())" }, if forever { "receive()" } else { "receive_timeout(30 s)" });
+        match got {
+            Ok((Some(2), _)) => { let e = t_sched.elapsed(); if e > Duration::from_millis(70 + 400) { out.violation(&format!("[C16] {}: delivered only {:?} after it was scheduled", how, e)); } }
+            Ok((other, e)) => out.violation(&format!("[C16,C08] {}: the receive call returned {:?} after {:?}", how, other, e)),
+            Err(_) => { out.violation(&format!("[C16] {}: the receiver was not woken within 2.5 s (the timer expired 70 ms after it was scheduled)", how)); s.send(999); }
+        }
+        let _ = h.join();
+        out.count("later_timer_after_cancel");
+    }
+}
+
+/// a timer is cancelled by another thread right around the instant it expires while the receiver is
+/// blocked in receive_timeout(): either the event is delivered, or nothing is - and then only after the
+/// whole timeout has elapsed
+fn cancel_around_expiry_keeps_the_timeout(out: &mut Out, rounds: usize) {
+    let timer = Duration::from_millis(1);
+    let timeout = Duration::from_millis(5);
+    let (mut early, mut delivered, mut waited) = (vec![], 0u64, 0u64);
+    for round in 0..rounds {
+        let mut q = EventReceiver::<u64>::default();
+        let s = q.sender().clone();
+        let offset = Duration::from_micros((round % 100) as u64);
+        let c = std::thread::spawn(move || {
+            let t = Instant::now();
+            let id = s.send_with_timer(5, timer);
+            while Instant::now() < t + timer + offset { std::hint::spin_loop(); }
+            s.cancel_timer(id);
+        });
+        let t0 = Instant::now();
+        let r = q.receive_timeout(timeout);
+        let e = t0.elapsed();
+        let _ = c.join();
+        match r { Some(_) => delivered += 1, None if e < timeout => { if early.len() < 5 { early.push((round, e)); } else { early.push((round, e)); early.truncate(5); } } None => waited += 1 }
+    }
+    if !early.is_empty() {
+        out.violation(&format!("[C16] receive_timeout({:?}) reported nothing BEFORE the timeout had elapsed: a {:?} timer was cancelled by another thread 0..100 us after its expiry while the receiver was blocked; (round, returned None after) {:?}; of {} rounds {} delivered the event and {} waited the whole timeout", timeout, timer, early, rounds, delivered, waited));
+    }
+    out.add("cancel_around_expiry_rounds", rounds as u64);
+    out.add("cancel_around_expiry_delivered", delivered);
+}
+
 fn unbounded_timeouts(out: &mut Out) {
     for (ti, timeout) in [Duration::MAX, Duration::from_secs(u64::MAX), Duration::from_secs(u64::MAX / 4), Duration::from_secs(3600 * 24 * 365 * 100)].into_iter().enumerate() {
         for kind in 0..3u64 {
@@ -369,6 +433,8 @@ pub fn run(a: &Args) {
     }
     two_timers_two_receives(&mut out);
     unbounded_timeouts(&mut out);
+    later_timer_after_cancel(&mut out);
+    cancel_around_expiry_keeps_the_timeout(&mut out, if a.thorough { 6000 } else { 1000 });
     never_early_sweep(&mut out, a.thorough);
     out.finish();
 }
